@@ -124,6 +124,9 @@ type jEvent struct {
 	Usage []jUsage `json:"usage,omitempty"`
 	Raw   string   `json:"raw,omitempty"`   // t == "raw": datagram bytes (hex) sent as they are
 	Panic *jFail   `json:"panic,omitempty"` // the driver PANICS at this call (stands for an IE accessor of the dependency reading past a malformed IE)
+	// t == "setseq": position the UR-SEQN counter of URR `urr` of session `seid` at `v` (C11: counters far from 0)
+	URR uint32 `json:"urr,omitempty"`
+	V   uint32 `json:"v,omitempty"`
 }
 
 type jCase struct {
@@ -1042,6 +1045,11 @@ func runPfcpCase(f *fixture, c jCase) []oEvent {
 					break
 				}
 				time.Sleep(50 * time.Microsecond)
+			}
+		case "setseq":
+			// the loop is idle (the previous barrier went through it): the counter is positioned directly
+			if !srv.VerifSetURRSeq(ev.SEID, ev.URR, ev.V) {
+				o.Fault = "harness: setseq for a URR the session does not hold"
 			}
 		case "timeout":
 			tt := pfcp.RX
